@@ -53,4 +53,9 @@ func init() {
 		Decides:    "for goroutines started in several instances on shared operands, every write to the shared state is synchronised (C16-a); the concurrently read progress-tracker fields are accessed atomically (C16-b); the ingest pool's error channel has room for one error per worker and a worker sends at most once (C16-c); no error is dropped in goroutine bodies (C16-d).",
 		NotDecided: "termination, deadlock freedom, equality with the sequential result, absence of every race (no may-happen-in-parallel analysis for main-vs-goroutine pairs).",
 	}
+	props["C18"] = &propSpec{
+		Rules:      []string{"C18-a"},
+		Decides:    "a sufficient shape for chunk-independence of what decoders see: no decoder calls Read once and assumes a full buffer (C18-a).",
+		NotDecided: "equality of the decoded object sequences under every partition of the stream (behavioural); readers handed to third-party decoders (gzip, json).",
+	}
 }
